@@ -71,19 +71,19 @@ Section C03.
        no_unit    no Unit type (two-way assignable by definition);
        rule_free  the by-specification rule "a Struct accepts a Hash type on key type and size alone" cannot have
                   contributed to any of the three answers (left operand without Struct or right operand without Hash;
-                  open finding trans-through-struct-accepts-hash-rule, C03_trans_refuted_by_struct_hash_rule below);
-       sz_nonneg  the rightmost type has no Array / Hash / Tuple size with a negative maximum (such sizes parse,
-                  e.g. Array[String,-1,-1]; open finding trans-negative-collection-size, C03_trans_refuted_by_negative_size). *)
+                  open finding trans-through-struct-accepts-hash-rule, C03_trans_refuted_by_struct_hash_rule below).
+     No condition on sizes: collection sizes with negative bounds parse and construct (Array[String,-1,-1]) and are
+     covered (finding trans-negative-collection-size, fixed: the "admits at most the empty collection" shortcut
+     tests max <= 0; C03_trans_negative_size_chain below). *)
   Theorem C03_trans : forall a b c,
     wf_ty a = true -> wf_ty b = true -> wf_ty c = true -> no_unit a = true -> no_unit b = true -> no_unit c = true ->
-    rule_free a b = true -> rule_free b c = true -> rule_free a c = true -> sz_nonneg c = true ->
+    rule_free a b = true -> rule_free b c = true -> rule_free a c = true ->
     a ⊒ b -> b ⊒ c -> a ⊒ c.
   Proof. exact (asg_trans_code rx). Qed.
 
   (* the same for the relation without the by-specification rule (`asg rx false`), all types of the model *)
   Theorem C03_trans_rule_free_relation : forall a b c,
     wf_ty a = true -> wf_ty b = true -> wf_ty c = true -> no_unit a = true -> no_unit b = true -> no_unit c = true ->
-    sz_nonneg c = true ->
     asg rx false a b = true -> asg rx false b c = true -> asg rx false a c = true.
   Proof. exact (asg_trans rx). Qed.
 
@@ -151,20 +151,34 @@ Example C03_trans_nonvacuous :
   let b := TStruct [([97%N], (k, TTuple [TOptional TString; TArray (TPattern [[120%N]; [121%N]]) 0 3] false 2 2)); ([98%N], (ko, TNumeric))] in
   let c := TStruct [([97%N], (k, TTuple [TNotUndef (TOptional (TEnum false [[120%N]])); TTuple [TStringVal [120%N]; TEnum false [[121%N]]] false 2 2] false 2 2))] in
   wf_ty a = true /\ wf_ty b = true /\ wf_ty c = true /\ no_unit a = true /\ no_unit b = true /\ no_unit c = true /\
-  rule_free a b = true /\ rule_free b c = true /\ rule_free a c = true /\ sz_nonneg c = true /\
+  rule_free a b = true /\ rule_free b c = true /\ rule_free a c = true /\
   asg rx true a b = true /\ asg rx true b c = true /\ asg rx true a c = true /\
   asg rx true b a = false /\ asg rx true c b = false.
 Proof. vm_compute. repeat split; reflexivity. Qed.
 
-(* The unguarded statement, kept visible, and its two refutations (model of the code = the code, both checked on
-   the implementation). *)
+(* The statement without the rule_free guard, kept visible, and its refutation through the by-specification rule
+   (model of the code = the code, checked on the implementation: open finding trans-through-struct-accepts-hash-rule). *)
 Definition C03_trans_statement : Prop := forall rx a b c,
   wf_ty a = true -> wf_ty b = true -> wf_ty c = true -> no_unit a = true -> no_unit b = true -> no_unit c = true ->
   asg rx true a b = true -> asg rx true b c = true -> asg rx true a c = true.
 
-(* open finding trans-negative-collection-size: the "a size that admits only the empty collection makes the
-   element types irrelevant" shortcut tests max == 0, and a sub-range of [-1,0] can have max < 0:
-   Array[Integer[0,9],-1,5] >= Array[String,-1,0] >= Array[String,-1,-1], not Array[Integer[0,9],-1,5] >= Array[String,-1,-1] *)
-Theorem C03_trans_refuted_by_negative_size : ~ C03_trans_statement.
-Proof. exact (asg_trans_unguarded_refuted true). Qed.
-Print Assumptions C03_trans_refuted_by_negative_size.
+Theorem C03_trans_statement_refuted : ~ C03_trans_statement.
+Proof. exact asg_trans_unguarded_code_refuted. Qed.
+Print Assumptions C03_trans_statement_refuted.
+
+(* finding trans-negative-collection-size, fixed: the shortcut "a size that admits at most the empty collection makes
+   the element types irrelevant" tested max == 0, and a sub-range of [-1,0] can have max < 0; it tests max <= 0 now.
+   The chain that refuted transitivity is accepted:
+   Array[Integer[0,9],-1,5] >= Array[String,-1,0] >= Array[String,-1,-1], and Array[Integer[0,9],-1,5] >= Array[String,-1,-1];
+   the same through Hash and Tuple (slots and sizes below zero) *)
+Example C03_trans_negative_size_chain :
+  let rx := fun _ _ => false in
+  let i09 := TInteger 0 9 in
+  (let a := TArray i09 (-1) 5 in let b := TArray TString (-1) 0 in let c := TArray TString (-1) (-1) in
+   asg rx true a b = true /\ asg rx true b c = true /\ asg rx true a c = true) /\
+  (let a := THash i09 i09 (-1) 5 in let b := THash TString TString (-1) 0 in let c := THash TString TString (-1) (-1) in
+   asg rx true a b = true /\ asg rx true b c = true /\ asg rx true a c = true) /\
+  (let a := TTuple [i09] true (-1) 5 in let b := TTuple [TString] true (-1) 0 in let c := TTuple [TString] true (-1) (-1) in
+   wf_ty a = true /\ wf_ty b = true /\ wf_ty c = true /\
+   asg rx true a b = true /\ asg rx true b c = true /\ asg rx true a c = true).
+Proof. vm_compute. repeat split; reflexivity. Qed.
